@@ -2896,3 +2896,28 @@ let parse s strict user_skip =
   (match t with
    | TEnd -> parse_tokens toks strict user_skip
    | _ -> Err TokenizerError)
+
+(** val run_clo : z list -> z list **)
+
+let run_clo _ =
+  []
+
+(** val run_buf : z list -> z list **)
+
+let run_buf _ =
+  []
+
+(** val run_args : z list -> z list **)
+
+let run_args _ =
+  []
+
+(** val run_view : z list -> z list **)
+
+let run_view _ =
+  []
+
+(** val run_edit : z list -> z list **)
+
+let run_edit _ =
+  []
